@@ -50,36 +50,52 @@ func zi(x int64) string {
 func zu(x uint64) string { return fmt.Sprint(x) }
 func zb(b bool) string   { return casefile.Bool(b) }
 
-func list(parts []string) string { return "[" + strings.Join(parts, "; ") + "]" }
+// nest renders a monomorphic wire list (see CaseDefs.v): (cons item1 (cons item2 ... nil))
+func nest(cons, nilName string, items []string) string {
+	if len(items) == 0 {
+		return nilName
+	}
+	var sb strings.Builder
+	for _, it := range items {
+		sb.WriteString("(")
+		sb.WriteString(cons)
+		sb.WriteString(" ")
+		sb.WriteString(it)
+		sb.WriteString(" ")
+	}
+	sb.WriteString(nilName)
+	sb.WriteString(strings.Repeat(")", len(items)))
+	return sb.String()
+}
 
 func listU(xs []uint64) string {
 	p := make([]string, len(xs))
 	for i, x := range xs {
 		p[i] = zu(x)
 	}
-	return list(p)
+	return nest("zc", "zn", p)
 }
 func listI(xs []int) string {
 	p := make([]string, len(xs))
 	for i, x := range xs {
 		p[i] = zi(int64(x))
 	}
-	return list(p)
+	return nest("zc", "zn", p)
 }
 func listB(xs []byte) string {
 	p := make([]string, len(xs))
 	for i, x := range xs {
 		p[i] = fmt.Sprint(x)
 	}
-	return list(p)
+	return nest("zc", "zn", p)
 }
-func idCoq(id seq.ID) string { return fmt.Sprintf("(%d, %d)", uint64(id.MID), uint64(id.RID)) }
+func idCoq(id seq.ID) string { return fmt.Sprintf("%d %d", uint64(id.MID), uint64(id.RID)) }
 func listID(ids []seq.ID) string {
 	p := make([]string, len(ids))
 	for i, x := range ids {
 		p[i] = idCoq(x)
 	}
-	return list(p)
+	return nest("idc", "idn", p)
 }
 
 // distribution state -> (from, to, bucket, size, bin); reports sub-millisecond ends
@@ -88,13 +104,13 @@ func dstate(w *casefile.Writer, d *seq.MIDsDistribution, input any) string {
 	if sub != 0 {
 		w.Violate("dist:sub-ms-ends", "distribution window ends are not whole milliseconds", input)
 	}
-	return fmt.Sprintf("(%s, %s, %s, %d, %s)", zi(f), zi(t), zi(b), size, listB(bin))
+	return fmt.Sprintf("(WDist %s %s %s %d %s)", zi(f), zi(t), zi(b), size, listB(bin))
 }
 func ostate(w *casefile.Writer, d *seq.MIDsDistribution, input any) string {
 	if d == nil {
-		return "SNone"
+		return "WNone"
 	}
-	return "(SDist " + dstate(w, d, input) + ")"
+	return dstate(w, d, input)
 }
 
 func try(f func()) (p any) {
@@ -138,14 +154,14 @@ func runBits(w *casefile.Writer, in bitsIn, class string) {
 			if q[0]/8 != q[1]/8 && len(in.Sets) > 0 {
 				nontrivial = true
 			}
-			res = append(res, fmt.Sprintf("(%d, %d, %s)", q[0], q[1], zb(r)))
+			res = append(res, fmt.Sprintf("%d %d %s", q[0], q[1], zb(r)))
 		}
 	})
 	if p != nil {
 		w.Violate("panic:bitmask", fmt.Sprintf("util.Bitmask panics on in-range positions: %v", p), in)
 		return
 	}
-	w.Add(fmt.Sprintf("CBits %d %s %s %s", in.Size, listI(in.Sets), listB(bin), list(res)),
+	w.Add(fmt.Sprintf("WBits %d %s %s %s", in.Size, listI(in.Sets), listB(bin), nest("q3c", "q3n", res)),
 		class, nontrivial, in, map[string]any{"bin": fmt.Sprint(bin)})
 }
 
@@ -219,13 +235,13 @@ func runDist(w *casefile.Writer, in distIn, class string) {
 			}
 		})
 		if rtPanic != nil {
-			rt = "SPanic"
+			rt = "WPanic"
 			restored = nil
 		} else {
 			rt = ostate(w, restored, in)
 		}
 		for _, m := range in.Idx {
-			idx = append(idx, fmt.Sprintf("(%d, %d)", m, d.VerifC14MidToIndex(seq.MID(m))))
+			idx = append(idx, fmt.Sprintf("%d %d", m, d.VerifC14MidToIndex(seq.MID(m))))
 		}
 		for _, q := range in.Qs {
 			r1 := d.IsIntersecting(seq.MID(q[0]), seq.MID(q[1]))
@@ -236,15 +252,15 @@ func runDist(w *casefile.Writer, in distIn, class string) {
 			if !r1 || !r2 {
 				nontrivial = true // the distribution really prunes something
 			}
-			qs = append(qs, fmt.Sprintf("(%d, %d, %s, %s)", q[0], q[1], zb(r1), zb(r2)))
+			qs = append(qs, fmt.Sprintf("%d %d %s %s", q[0], q[1], zb(r1), zb(r2)))
 		}
 	})
 	if p != nil {
 		w.Violate("panic:distribution", fmt.Sprintf("seq.MIDsDistribution panics: %v", p), in)
 		return
 	}
-	w.Add(fmt.Sprintf("CDist %s %s %s %s %s %s %s %s", zi(in.From), zi(in.To), zi(in.Bucket), listU(in.Adds),
-		st, rt, list(idx), list(qs)), class, nontrivial && len(in.Adds) > 0, in, map[string]any{"state": st, "restored": rt})
+	w.Add(fmt.Sprintf("WDistC %s %s %s %s %s %s %s %s", zi(in.From), zi(in.To), zi(in.Bucket), listU(in.Adds),
+		st, rt, nest("idc", "idn", idx), nest("q4c", "q4n", qs)), class, nontrivial && len(in.Adds) > 0, in, map[string]any{"state": st, "restored": rt})
 }
 
 func genDistGrid(w *casefile.Writer, thorough bool) {
@@ -466,7 +482,7 @@ func runInfo(w *casefile.Writer, in infoIn, class string) {
 		var back frac.Info
 		rtPanic := try(func() { back.Load(info.Save()) })
 		if rtPanic != nil {
-			rt = "SPanic"
+			rt = "WPanic"
 		} else {
 			rt = ostate(w, back.Distribution, in)
 			if back.From != info.From || back.To != info.To || back.DocsTotal != info.DocsTotal || back.CreationTime != info.CreationTime {
@@ -482,14 +498,14 @@ func runInfo(w *casefile.Writer, in infoIn, class string) {
 			if !r1 && info.Distribution != nil && q[0] <= q[1] && q[1] >= mn && q[0] <= mx {
 				nontrivial = true // pruned by the occupancy map, not by the borders
 			}
-			qs = append(qs, fmt.Sprintf("(%d, %d, %s, %s)", q[0], q[1], zb(r1), zb(r2)))
+			qs = append(qs, fmt.Sprintf("%d %d %s %s", q[0], q[1], zb(r1), zb(r2)))
 		}
 	})
 	if p != nil {
 		w.Violate("panic:info", fmt.Sprintf("frac.Info distribution code panics: %v", p), in)
 		return
 	}
-	w.Add(fmt.Sprintf("CInfo %d %s %s %d %d %s %s %s", in.Creation, listU(in.Docs), zb(in.Stub), mn, mx, st, rt, list(qs)),
+	w.Add(fmt.Sprintf("WInfo %d %s %s %d %d %s %s %s", in.Creation, listU(in.Docs), zb(in.Stub), mn, mx, st, rt, nest("q4c", "q4n", qs)),
 		"info-"+class, nontrivial, in, map[string]any{"dist": st, "restored": rt})
 }
 
@@ -532,14 +548,14 @@ func runBorders(w *casefile.Writer, in bordersIn, class string) {
 			if int(lo) > 1 && int(hi) < len(ids) && lo <= hi {
 				nontrivial = true // narrowed on both sides and non-empty
 			}
-			qs = append(qs, fmt.Sprintf("(%d, %d, %d, %d)", q[0], q[1], lo, hi))
+			qs = append(qs, fmt.Sprintf("%d %d %d %d", q[0], q[1], lo, hi))
 		}
 	})
 	if p != nil {
 		w.Violate("panic:lids-borders", fmt.Sprintf("getLIDsBorders panics: %v", p), in)
 		return
 	}
-	w.Add(fmt.Sprintf("CBorders %s %s", listID(ids), list(qs)), class, nontrivial, in, nil)
+	w.Add(fmt.Sprintf("WBorders %s %s", listID(ids), nest("b4c", "b4n", qs)), class, nontrivial, in, nil)
 }
 
 func genBorders(w *casefile.Writer, r *rng.R, thorough bool) {
@@ -670,10 +686,10 @@ func observeFrac(w *casefile.Writer, in storeIn, k int, f frac.Fraction, sealed,
 			if len(res) > 0 && len(res) < len(ids) {
 				nontrivial = true
 			}
-			qs = append(qs, fmt.Sprintf("(%d, %d, %s, %d, %d, %s)", q[0], q[1], zb(r), lo, hi, listID(res)))
+			qs = append(qs, fmt.Sprintf("%d %d %s %d %d %s", q[0], q[1], zb(r), lo, hi, listID(res)))
 		}
-		term = fmt.Sprintf("CFrac %d %s %s %s %d %d %d %s %s %s %s", fr.Creation, listID(ids), zb(sealed), zb(restored),
-			info.DocsTotal, uint64(info.From), uint64(info.To), st, listID(mins), zb(tblOK), list(qs))
+		term = fmt.Sprintf("WFrac %d %s %s %s %d %d %d %s %s %s %s", fr.Creation, listID(ids), zb(sealed), zb(restored),
+			info.DocsTotal, uint64(info.From), uint64(info.To), st, listID(mins), zb(tblOK), nest("fqc", "fqn", qs))
 	})
 	if p != nil {
 		w.Violate("panic:fraction", fmt.Sprintf("real fraction (%s) panics: %v", phase, p), input)
@@ -709,7 +725,7 @@ func observeStore(w *casefile.Writer, in storeIn, fracs fracmanager.List, phase 
 			if len(res) > 0 && len(res) < len(all) {
 				nontrivial = true
 			}
-			qs = append(qs, fmt.Sprintf("(%d, %d, %s)", q[0], q[1], listID(res)))
+			qs = append(qs, fmt.Sprintf("%d %d %s", q[0], q[1], listID(res)))
 		}
 	})
 	if p != nil {
@@ -724,10 +740,10 @@ func observeStore(w *casefile.Writer, in storeIn, fracs fracmanager.List, phase 
 			return
 		}
 		for i, id := range all {
-			fetched = append(fetched, fmt.Sprintf("(%s, %s)", idCoq(id), zb(len(docs[i]) > 0)))
+			fetched = append(fetched, fmt.Sprintf("%s %s", idCoq(id), zb(len(docs[i]) > 0)))
 		}
 	}
-	w.Add(fmt.Sprintf("CStore %s %s %s", listID(all), list(qs), list(fetched)), "store-"+phase, nontrivial, input, nil)
+	w.Add(fmt.Sprintf("WStore %s %s %s", listID(all), nest("sqc", "sqn", qs), nest("fuc", "fun_", fetched)), "store-"+phase, nontrivial, input, nil)
 }
 
 func runStore(w *casefile.Writer, in storeIn) {
